@@ -71,6 +71,14 @@ def one(ctx, LP, D, ph, mode):
             systems.append(([float(x) for x in h.IPoly.aligned(-dg, dg)], [float(x) for x in h.XPoly.aligned(-dg, dg)], int(ldeg),
                             np.array(m, dtype=float).copy(), np.array(s, dtype=float).copy()))
         return m, s
+    splits, orig_dec = [], D.decompose
+
+    def wrapped_dec(h, ldeg):
+        res = orig_dec(h, ldeg)
+        if not splits:                       # the top-level split: h is the element built from `ph`
+            splits.append((int(ldeg), res[0], res[1]))
+        return res
+    D.decompose = wrapped_dec
     D.linear_system = wrapped_ls
     D.angseq = wrapped
     try:
@@ -84,6 +92,7 @@ def one(ctx, LP, D, ph, mode):
     finally:
         D.angseq = orig
         D.linear_system = orig_ls
+        D.decompose = orig_dec
     ctx.count("n=%d" % n if n <= 8 else "n>8")
     ctx.count("mode:" + mode)
     ctx.case([ph], True, {"n": n, "mode": mode, "phases": ph[:5], "outcome": out[:30]})
@@ -129,6 +138,32 @@ def one(ctx, LP, D, ph, mode):
             ctx.violation("c06:linear-system", "the linear system built by decomposition.linear_system differs from the model's (rows selected, signs, reversal or right-hand side changed)",
                           dict(replay, ldeg=ldeg, degree=len(ai) - 1, python_shape=list(m.shape), model_shape=[len(rows), len(rows[0]) if rows else 0]), found_input=False)
             return
+    # the top-level split against THE solution (C06e: the linear system of `decompose` is solved by the conjugate of the prefix
+    # product and, the interior cosines being non-zero in this family, by nothing else; C06f: truncating l*g gives exactly the
+    # suffix element): what lstsq + truncate return must be that prefix / suffix, up to the conditioning of the solve
+    for ldeg, first, r_ in splits:
+        pairs = ",".join("%s;%s" % (rs(F(float(np.cos(x)))), rs(F(float(np.sin(x))))) for x in ph)
+        mo = drv.ask("decomp.split %d %s" % (ldeg, pairs)).split()
+        if len(mo) < 5:
+            raise core.InfraError("decomp.split: " + " ".join(mo)[:200])
+        ml_i, ml_x, ms_i, ms_x = (core.den_of_model(core.lp_dec(t)) for t in mo[:4])
+        tol_s = Fraction(1, 10 ** 9)
+        worst_s = Fraction(0)
+        try:
+            lpy = ~first
+            comps = (("l.I", lpy.IPoly, ml_i), ("l.X", lpy.XPoly, ml_x), ("r.I", r_.IPoly, ms_i), ("r.X", r_.XPoly, ms_x))
+        except Exception as e:  # noqa
+            ctx.violation("c06:split", "what decompose returned is not an algebra element pair: %s" % type(e).__name__, dict(replay, ldeg=ldeg), found_input=False)
+            return
+        ctx.count("top-level-split-compared")
+        for nm, cpy, cmo in comps:
+            ok, worst, wk = core.den_close(cmo, den_of_py(cpy), tol_s)
+            worst_s = max(worst_s, worst)
+            if not ok:
+                ctx.violation("c06:split", "decompose(g, %d) does not return the prefix / suffix split that is the unique solution of its linear system (%s, power %s, off by %.3e)" % (ldeg, nm, wk, core.fl(worst)),
+                              dict(replay, ldeg=ldeg, component=nm), found_input=False)
+                return
+        ctx.extra["worst_split_distance"] = max(ctx.extra.get("worst_split_distance", 0.0), core.fl(worst_s))
     # literal clause: the library-built elements agree coefficient-wise within 1e-8 (exact rationals)
     g2 = LP.LAlg.unitary_from_angles(ph2)
     for comp, c1, c2 in (("I", g.IPoly, g2.IPoly), ("X", g.XPoly, g2.XPoly)):
@@ -140,7 +175,7 @@ def one(ctx, LP, D, ph, mode):
 
 
 def run(tier, seed):
-    ctx = core.Ctx(PROP, tier, seed, "translation_validation", ["C06", "C06b", "C06c", "C06d", "C06e"])
+    ctx = core.Ctx(PROP, tier, seed, "translation_validation", ["C06", "C06b", "C06c", "C06d", "C06e", "C06f"])
     ctx.axioms = core.audit(ctx.modules)
     import pyqsp.LPoly as LP
     import pyqsp.decomposition as D
@@ -172,7 +207,7 @@ def run(tier, seed):
 def replay(path):
     import json
     c = json.load(open(path))
-    ctx = core.Ctx(PROP, "quick", c.get("seed", 0), "translation_validation", ["C06", "C06b", "C06c", "C06d", "C06e"])
+    ctx = core.Ctx(PROP, "quick", c.get("seed", 0), "translation_validation", ["C06", "C06b", "C06c", "C06d", "C06e", "C06f"])
     import pyqsp.LPoly as LP
     import pyqsp.decomposition as D
     one(ctx, LP, D, c["phases"], c.get("mode", "?"))
